@@ -154,4 +154,17 @@ Rename(g, m) ==
                !.et = [e \in {{m[u] : u \in f} : f \in DOMAIN g.et} |-> g.et[{inv(w) : w \in e}]],
                !.ins = [i \in 1..Len(g.ins) |-> m[g.ins[i]]],
                !.outs = [i \in 1..Len(g.outs) |-> m[g.outs[i]]]]
+\* refinement up to the names of vertices created by a step: `spec` and `impl` agree on the vertices of `old`
+\* and some bijection between their new vertices makes them equal
+SameUpToNew(spec, impl, old) ==
+  LET ns == spec.vs \ old
+      ni == impl.vs \ old
+  IN /\ Cardinality(ns) = Cardinality(ni)
+     /\ spec.vs \cap old = impl.vs \cap old
+     /\ IF ns = {} THEN spec = impl
+        ELSE \E m \in {f \in [ns -> ni] : \A x, y \in ns : x # y => f[x] # f[y]} :
+               Rename(spec, [v \in spec.vs |-> IF v \in ns THEN m[v] ELSE v]) = impl
+\* compaction of the vector backend: the vertices renumbered 0..n-1 in increasing order of their names
+RankOf(g, v) == Cardinality({u \in g.vs : u < v})
+Packed(g) == Rename(g, [v \in g.vs |-> RankOf(g, v)])
 =============================================================================
